@@ -8,7 +8,7 @@ from __future__ import annotations
 import itertools
 import typing
 
-from vf import respgen
+from vf import respgen, wire
 from vf.core import Ctx, Recorder
 from vf.respgen import Spec
 
@@ -176,6 +176,136 @@ def run_pair(rec: Recorder, spec_a: Spec, spec_b: Spec, amt_a: int, amt_b: int, 
         rec.fail(case, "bytes-differ", {"pair": True, "which": which, "mixed_families": False, "coding": [spec_a.coding, spec_b.coding], "framing": [spec_a.framing, spec_b.framing], "got_len": [len(got_a), len(got_b)], "want_len": [len(exp_a), len(exp_b)]}, f"interleaved reads: the {which} response's bytes differ from what the server sent")
 
 
+class RetriedServer:
+    """The first answer(s) are a dropped connection / a 503 / a 307 to the same path; then the prepared response."""
+
+    def __init__(self, wire_bytes: bytes, first: list[str]):
+        self.wire_bytes = wire_bytes
+        self.first = list(first)
+
+    def on_request(self, net: typing.Any, sc: typing.Any, req: typing.Any) -> None:
+        if self.first:
+            what = self.first.pop(0)
+            if what == "drop":
+                sc.reset()
+            elif what == "503":
+                sc.write(wire.build_response(503, "Busy", [("Retry-After", "0")], b"busy"))
+            else:
+                sc.write(wire.build_response(307, "Again", [("Location", req.target.decode("latin-1"))], b""))
+            return
+        n = max(1, len(self.wire_bytes) // 4)
+        sc.write_segmented([self.wire_bytes[i : i + n] for i in range(0, len(self.wire_bytes), n)])
+
+
+def run_through_pool(rec: Recorder, spec: Spec, first: list[str], way: str) -> None:
+    """The response reaches the caller through a pool that first had to re-send the request (dropped connection, retried
+    status, same-host redirect): the caller's decode_content flag and every way of reading still apply to it."""
+    import urllib3
+
+    from vf import netsim
+
+    head, body, enc, expected = respgen.build(spec)
+    case = {"through_pool": list(spec), "first": first, "way": way}
+    rec.mon("through_pool")
+    got = bytearray()
+    with netsim.Net(RetriedServer(head + body, first)):
+        pool = urllib3.HTTPConnectionPool("retry.test", 80, maxsize=1, retries=urllib3.Retry(5, status_forcelist=[503], backoff_factor=0))
+        try:
+            if way == "preload":
+                r = pool.urlopen("GET", "/r", decode_content=spec.decode)
+                got += r.data
+            else:
+                r = pool.urlopen("GET", "/r", preload_content=False, decode_content=spec.decode)
+                if way == "data":
+                    got += r.data
+                elif way == "readinto":
+                    buf = bytearray(64)
+                    while True:
+                        k = r.readinto(buf)
+                        if not k:
+                            break
+                        got += buf[:k]
+                elif way == "readn-then-data":
+                    got += r.read(7, decode_content=spec.decode)
+                    got += r.data if False else r.read(decode_content=spec.decode)
+                elif way == "read1":
+                    while True:
+                        piece = r.read1(50, decode_content=spec.decode)
+                        if not piece:
+                            break
+                        got += piece
+                else:
+                    for piece in r.stream(33, decode_content=spec.decode):
+                        got += piece
+                r.release_conn()
+        except Exception as e:  # noqa: BLE001
+            rec.fail(case, "exception-on-wellformed-response", {"exc": type(e).__name__, "msg": str(e)[:100], "mixed_families": False, "coding": spec.coding, "through_pool": True, "first": first, "decode": spec.decode}, f"{way} after {first}: {type(e).__name__}: {e!s:.120}")
+            pool.close()
+            return
+        pool.close()
+    if bytes(got) != expected:
+        rec.fail(case, "bytes-differ", {"through_pool": True, "way": way, "first": first, "mixed_families": False, "coding": spec.coding, "framing": spec.framing, "decode": spec.decode, "got_len": len(got), "want_len": len(expected)}, f"{way} after {first} with decode_content={spec.decode}: {len(got)} bytes, expected {len(expected)}")
+
+
+class BodylessServer:
+    def __init__(self, coding: str):
+        self.coding = coding
+
+    def on_request(self, net: typing.Any, sc: typing.Any, req: typing.Any) -> None:
+        ce = b"Content-Encoding: " + self.coding.encode() + b"\r\n"
+        if req.method == b"HEAD":
+            sc.write(b"HTTP/1.1 200 OK\r\n" + ce + b"Content-Length: 20\r\n\r\n")
+        elif b"204" in req.target:
+            sc.write(b"HTTP/1.1 204 No Content\r\n" + ce + b"\r\n")
+        elif b"304" in req.target:
+            sc.write(b"HTTP/1.1 304 Not Modified\r\n" + ce + b"\r\n")
+        else:
+            sc.write(b"HTTP/1.1 200 OK\r\n" + ce + b"Content-Length: 0\r\n\r\n")
+
+
+def run_bodyless(rec: Recorder) -> None:
+    """Responses without a body that still announce a Content-Encoding (HEAD, 204, 304, Content-Length: 0): every way of
+    reading gives the empty body, none raises."""
+    import urllib3
+
+    from vf import netsim
+
+    for coding in ("gzip", "deflate", "zstd", "gzip, zstd", "br-unknown"):
+        for method, target in (("HEAD", "/h"), ("GET", "/204"), ("GET", "/304"), ("GET", "/cl0")):
+            for way in ("read", "read1", "read1n", "readn", "stream", "data", "readinto", "preload", "iter"):
+                case = {"bodyless": [method, target], "coding": coding, "way": way}
+                rec.case(["bodyless", coding, method, target, way])
+                rec.mon("bodyless_response")
+                with netsim.Net(BodylessServer(coding)):
+                    pool = urllib3.HTTPConnectionPool("z.test", 80, retries=False)
+                    try:
+                        r = pool.urlopen(method, target, preload_content=(way == "preload"))
+                        if way == "read":
+                            out = r.read()
+                        elif way == "read1":
+                            out = r.read1()
+                        elif way == "read1n":
+                            out = r.read1(10)
+                        elif way == "readn":
+                            out = r.read(10)
+                        elif way == "stream":
+                            out = b"".join(r.stream(10))
+                        elif way == "iter":
+                            out = b"".join(r)
+                        elif way == "readinto":
+                            buf = bytearray(10)
+                            out = bytes(buf[: r.readinto(buf)])
+                        else:
+                            out = r.data
+                    except Exception as e:  # noqa: BLE001
+                        rec.fail(case, "exception-on-wellformed-response", {"exc": type(e).__name__, "msg": str(e)[:100], "mixed_families": False, "coding": coding, "bodyless": True, "way": way}, f"{method} {target} ({coding}) read with {way}: {type(e).__name__}: {e!s:.100}")
+                        pool.close()
+                        continue
+                    pool.close()
+                if out != b"":
+                    rec.fail(case, "bytes-differ", {"bodyless": True, "way": way, "mixed_families": False, "coding": coding, "got_len": len(out), "want_len": 0}, f"{method} {target} read with {way} returned {out[:40]!r}")
+
+
 def random_spec(rng: typing.Any, small: bool = False) -> Spec:
     size = rng.choice([0, 1, 5, 100] if small else [0, 1, 5, 100, 100, 3000, 3000, 70000])
     coding = rng.choice(respgen.CODINGS)
@@ -261,6 +391,21 @@ def run_shard(ctx: Ctx, rec: Recorder) -> None:
                     sb = Spec(2000, cb, "cl", [], "", "whole", True)
                     rec.case(["pair", ca, cb, fa, pre])
                     run_pair(rec, sa, sb, 97, 131, pre)
+    if ctx.shard == 0:
+        run_bodyless(rec)
+    # (ii-c) the response arrives through a pool after transparent re-sends; decoding on and off
+    ti = 0
+    for coding in ("gzip", "identity", "zstd", "deflate", "gzip+deflate"):
+        for framing in ("cl", "chunked"):
+            for decode in (True, False):
+                for first in (["drop"], ["503"], ["307"], ["drop", "307"], []):
+                    for way in ("preload", "data", "readinto", "readn-then-data", "read1", "stream"):
+                        ti += 1
+                        if not ctx.mine(ti):
+                            continue
+                        spec = Spec(300, coding, framing, [64, 7] if framing == "chunked" else [], "", "whole", decode)
+                        rec.case(["through-pool", coding, framing, decode, first, way])
+                        run_through_pool(rec, spec, list(first), way)
     # (iii) random responses x random call sequences
     n = ctx.pick(2500, 90000)
     for i in range(n):
